@@ -46,6 +46,7 @@ func cmdHarness(args []string) {
 	wall := fs.Duration("wall", 10*time.Minute, "wall limit")
 	shard := fs.String("shard", "", "k/n: explore only shard k of n")
 	thorough := fs.Bool("thorough", false, "thorough bounds")
+	diff := fs.Bool("diff", false, "re-decide every query on the second solver (thorough tier behaviour)")
 	dumpSSA := fs.Bool("ssa", false, "print the SSA form of the harness function and exit")
 	fs.Parse(args)
 	if fs.NArg() < 2 {
@@ -71,7 +72,7 @@ func cmdHarness(args []string) {
 			continue
 		}
 		stats := &SolverStats{}
-		opt := RunOpts{CapMs: *capMs, Wall: *wall, Concrete: *concrete >= 0, Seed: uint64(*concrete), Trace: *trace, Thorough: *thorough}
+		opt := RunOpts{CapMs: *capMs, Wall: *wall, Concrete: *concrete >= 0, Seed: uint64(*concrete), Trace: *trace, Thorough: *thorough, Diff: *diff}
 		if *shard != "" {
 			fmt.Sscanf(*shard, "%d/%d", &opt.Shard, &opt.Shards)
 		}
